@@ -4,7 +4,7 @@ a private mount namespace bind-mounts a patched copy of /repo over /repo and a s
 over /verif. Results: /tmp/mut/results/<id>.json (copy them into /verif/seeded/<id>/ afterwards).
 usage: seed_eval.py [--checks C01,C02|all|own] [ids...]"""
 import json, os, subprocess, sys, time, glob, shutil
-MUT = "/tmp/mut"
+MUT = os.environ.get("SEED_MUT", "/tmp/mut")
 def sh(cmd, **kw): return subprocess.run(cmd, shell=isinstance(cmd, str), stdout=subprocess.PIPE, stderr=subprocess.STDOUT, text=True, **kw)
 def main():
     a = sys.argv[1:]; which = "all"
